@@ -26,6 +26,8 @@ def run(ctx):
         for fam in ("prf", "mac", "prfshort"):
             jobs.append((lpc, [fam, 0, 40 if t else 24], be))
     common.parallel(lambda j: common.run_harness(ctx, j[0], j[1], label=j[2]), jobs)
+    if ctx.thorough:
+        common.huge_lengths(ctx, ["prf-in", "prf-out", "hmac:0", "hmac:1", "kmac:0", "kmac:1"])
     ctx.assumptions += [
         "ASCON-PRF v1 constants as bound to the shipped Prf/Mac/PrfShort KAT files; RFC 2104 with 64-byte block; KMAC = cXOF('KMAC', custom, declared = requested output length)(key || message) as in doc/kmac.dox",
         "PrfShort: for lengths above 16 only the error result is judged, not the buffer",
